@@ -381,6 +381,12 @@ func (l Loader) build(c config.ServerConfig) []tq.SecretProvider {
 		}
 		userConfig := l.configProvider.New(users)
 		handler := handlerType.New(l.ctx, userConfig, provider.Handler.Options)
+		if handler == nil {
+			// a handler factory may refuse its options (eg, a span handler without a destination).  a scope
+			// served by a nil handler would panic on its first request
+			l.Errorf(l.ctx, "handler factory returned no handler for scope [%v]. Skipping scope...", provider.Name)
+			continue
+		}
 		providerType := l.providerTypes[provider.Type]
 		if providerType == nil {
 			l.Errorf(l.ctx, "no provider assigned to provider type [%v] in scope [%v]; [%v] users not added", provider.Type, provider.Name, len(users))
